@@ -1,1 +1,1111 @@
-fn main(){}
+//! C10 — I/O faults and the input-size cap are never swallowed (reader and writer).
+//!
+//! Invariant oracle on observed outputs. Reader side: an instrumented reader with
+//! plan (chunking, fault) records whether the fault *fired*; fired ⇒ the
+//! single-document entry points return `Err`, the iterator yields at least one
+//! `Err` and every `Ok` item equals the fault-free item of the same index and
+//! belongs to a document whose bytes were all delivered; not fired ⇒ identical to
+//! the fault-free run. Cap c: bytes handed out ≤ c + 64 KiB on inputs ≥ c + 256
+//! KiB, which must fail; inputs of length ≤ c behave exactly as without a cap.
+//! Writer side: a writer failing at the k-th write / after n bytes (sticky or
+//! once, with short writes) ⇒ `Err(ser::Error::IO)` carrying the injected error,
+//! and the bytes accepted are a prefix of the fault-free output.
+
+mod docs;
+
+use docs::Doc;
+use serde_json::{Value, json};
+use std::collections::{BTreeMap, HashSet};
+use std::io::Write;
+use vcore::errs::{kind, line_col};
+use vcore::obs::{FaultWriter, ReadStats, WFAULT_MSG, WFault, catch, panic_site};
+use vcore::rdr::{Chunking, CutReader, RFault, RUNAWAY_MSG};
+use vcore::rng::{Rng, fnv_parts};
+use vcore::run::{Finish, Run, Tier, par_range};
+use vcore::targets::{self, Outcome, Target};
+use vcore::treegen::{self, LEAVES_BASIC};
+use vcore::val::Val;
+use vcore::ydoc;
+
+const ALLOWANCE: usize = 64 * 1024;
+const CAP_MARGIN: usize = 256 * 1024;
+
+// ------------------------------------------------------------------ shared helpers
+
+#[derive(Clone, Debug, PartialEq, Eq)]
+enum Canon {
+    Ok(String),
+    Err(String, Option<(u64, u64)>),
+}
+
+fn canon(o: &Outcome) -> Canon {
+    match o {
+        Ok(v) => Canon::Ok(v.clone()),
+        Err(e) => Canon::Err(kind(e), line_col(e)),
+    }
+}
+
+fn show_items(v: &[Canon]) -> String {
+    let parts: Vec<String> = v
+        .iter()
+        .take(8)
+        .map(|c| match c {
+            Canon::Ok(s) => format!("Ok({})", s.chars().take(80).collect::<String>()),
+            Canon::Err(k, lc) => format!("Err({k}@{lc:?})"),
+        })
+        .collect();
+    format!("[{}]{}", parts.join(", "), if v.len() > 8 { format!(" (+{} more)", v.len() - 8) } else { String::new() })
+}
+
+#[derive(Default)]
+struct Local {
+    counts: BTreeMap<&'static str, u64>,
+    sets: HashSet<(&'static str, String)>,
+}
+
+impl Local {
+    fn add(&mut self, k: &'static str, n: u64) {
+        *self.counts.entry(k).or_insert(0) += n;
+    }
+    fn see(&mut self, set: &'static str, label: String) {
+        self.sets.insert((set, label));
+    }
+    fn flush(&mut self, run: &Run) {
+        run.count_map(&self.counts);
+        self.counts.clear();
+        for (s, l) in self.sets.drain() {
+            run.observe(s, &l);
+        }
+    }
+}
+
+fn base_opts(cap: Option<Option<usize>>) -> serde_saphyr::Options {
+    let mut o = serde_saphyr::Options::default();
+    #[allow(deprecated)]
+    if let Some(c) = cap {
+        let mut b = serde_saphyr::Budget::default();
+        b.max_reader_input_bytes = c;
+        b.max_documents = usize::MAX / 2;
+        b.max_events = usize::MAX / 2;
+        b.max_nodes = usize::MAX / 2;
+        o.budget = Some(b);
+    }
+    o
+}
+
+#[derive(Clone, Copy, Debug, PartialEq, Eq)]
+enum REntry {
+    FromReader,
+    WithDeReader,
+    ReadIter,
+}
+
+impl REntry {
+    fn name(self) -> &'static str {
+        match self {
+            REntry::FromReader => "from_reader",
+            REntry::WithDeReader => "with_de_reader",
+            REntry::ReadIter => "read_iter",
+        }
+    }
+    fn from_name(s: &str) -> REntry {
+        match s {
+            "with_de_reader" => REntry::WithDeReader,
+            "read_iter" => REntry::ReadIter,
+            _ => REntry::FromReader,
+        }
+    }
+}
+
+const ALL_RENTRIES: [REntry; 3] = [REntry::FromReader, REntry::WithDeReader, REntry::ReadIter];
+
+struct RRun {
+    items: Vec<Canon>,
+    stats: ReadStats,
+    /// bytes handed out when the fault first fired
+    fired_at: Option<usize>,
+}
+
+/// One execution of a reader entry point under (chunking, fault).
+fn run_reader(
+    t: &Target,
+    e: REntry,
+    data: &[u8],
+    o: serde_saphyr::Options,
+    ch: &Chunking,
+    f: &RFault,
+    max_items: usize,
+) -> Result<RRun, String> {
+    catch(|| {
+        let mut r = CutReader::new(data, ch.clone(), f.clone());
+        let st = r.stats_handle();
+        let fa = r.fired_at_handle();
+        let items: Vec<Canon> = match e {
+            REntry::FromReader => vec![canon(&(t.from_reader)(&mut r, o))],
+            REntry::WithDeReader => vec![canon(&(t.with_de_reader)(&mut r, o))],
+            REntry::ReadIter => (t.read_iter)(&mut r, o, max_items).iter().map(canon).collect(),
+        };
+        let stats = st.borrow().clone();
+        let fired_at = *fa.borrow();
+        RRun { items, stats, fired_at }
+    })
+}
+
+fn prefix_class(text: &str, upto: usize) -> &'static str {
+    let upto = upto.min(text.len());
+    if !text.is_char_boundary(upto) {
+        return "cut-inside-codepoint";
+    }
+    let p = text[..upto].strip_prefix('\u{FEFF}').unwrap_or(&text[..upto]);
+    match catch(|| serde_saphyr::from_multiple::<Val>(p)) {
+        Ok(Ok(_)) => "prefix-is-a-complete-stream",
+        _ => "prefix-is-not-a-complete-stream",
+    }
+}
+
+/// What the parser had in front of it when the error was stored: the bytes handed out before the
+/// fault (nothing if the fault hit the decoder's 3-byte BOM sniffing). Does that prefix contain an
+/// empty / null-like document (the iterator skips those), or none at all?
+fn pending_class(text: &str, visible: usize, bom_sniffing_loses_short_prefix: bool) -> &'static str {
+    let mut upto = if visible < 3 && bom_sniffing_loses_short_prefix { 0 } else { visible.min(text.len()) };
+    while !text.is_char_boundary(upto) {
+        upto -= 1;
+    }
+    let p = text[..upto].strip_prefix('\u{FEFF}').unwrap_or(&text[..upto]);
+    let nullish = |d: &vcore::reftree::RDoc| match &d.root {
+        None => true,
+        Some(vcore::reftree::RNode::Scalar { value, style, .. }) => {
+            *style == saphyr_parser::ScalarStyle::Plain && (value.is_empty() || value == "~" || value.eq_ignore_ascii_case("null"))
+        }
+        Some(_) => false,
+    };
+    match vcore::reftree::parse_stream(p) {
+        Ok(docs) if docs.is_empty() || docs.iter().any(nullish) => "null-like-document-pending",
+        Ok(_) => "no-null-like-document",
+        Err(_) => "prefix-does-not-scan",
+    }
+}
+
+/// Symptom of an iterator run without any Err item, relative to the fault-free items.
+fn silent_shape(items: &[Canon], reference: &[Canon]) -> &'static str {
+    if items.len() <= reference.len() && items.iter().zip(reference).all(|(a, b)| a == b) {
+        "stream-ends-silently"
+    } else {
+        "items-differ"
+    }
+}
+
+/// Class of a run in which the library never stopped polling the reader (`p` = panic text of the
+/// instrumented reader, which ends in "at byte N").
+fn runaway_class(text: &str, p: &str) -> &'static str {
+    let at: usize = p.split(" at byte ").nth(1).and_then(|r| r.split_whitespace().next()).and_then(|n| n.parse().ok()).unwrap_or(text.len());
+    let mut upto = at.min(text.len());
+    while !text.is_char_boundary(upto) {
+        upto -= 1;
+    }
+    let last = text[..upto].rsplit(['\n', '\r']).next().unwrap_or("");
+    if last.trim_start_matches('\u{FEFF}').starts_with('%') { "directive-line-cut" } else { "other" }
+}
+
+// ------------------------------------------------------------------ reader fault sweep
+
+struct FaultCase<'a> {
+    doc: &'a Doc,
+    t: &'a Target,
+    e: REntry,
+    ch: &'a Chunking,
+    f: RFault,
+}
+
+impl FaultCase<'_> {
+    fn json(&self) -> Value {
+        json!({"section": "reader-fault", "text": self.doc.text, "ends": self.doc.ends, "class": self.doc.class,
+               "target": self.t.name, "entry": self.e.name(), "chunking": self.ch.to_json(), "fault": self.f.to_json()})
+    }
+}
+
+/// Judge one faulted execution against the fault-free reference.
+fn check_fault_case(run: &Run, l: &mut Local, c: &FaultCase, reference: &RRun) {
+    run.eval();
+    let data = c.doc.text.as_bytes();
+    let max_items = 4 * (reference.items.len() + 4);
+    let bom = if c.doc.text.starts_with('\u{FEFF}') { ":bom" } else { "" };
+    let r = match run_reader(c.t, c.e, data, base_opts(None), c.ch, &c.f, max_items) {
+        Ok(r) => r,
+        Err(p) if p.contains(RUNAWAY_MSG) => {
+            l.add("reader_runaway_after_fault", 1);
+            let class = runaway_class(&c.doc.text, &p);
+            run.violation(&format!("C10:reader:never-returns-after-fault:{class}"), c.json(), p);
+            return;
+        }
+        Err(p) => {
+            run.violation(&format!("C10:panic:{}", panic_site(&p)), c.json(), p);
+            return;
+        }
+    };
+    let fired = r.stats.fault_fired;
+    let sticky = matches!(c.f, RFault::ErrOnCall(_) | RFault::ErrAfterBytes(_) | RFault::EofAfterBytes(_));
+    if !fired {
+        l.add("fault_not_reached", 1);
+        if r.items != reference.items {
+            run.violation(
+                "C10:reader:unfired-fault-changed-result",
+                c.json(),
+                format!("fault-free: {} | with unfired fault plan: {}", show_items(&reference.items), show_items(&r.items)),
+            );
+        }
+        return;
+    }
+    l.add("fault_fired", 1);
+    l.add(
+        match c.f {
+            RFault::ErrOnCall(_) => "fired/err_on_call",
+            RFault::ErrOnceOnCall(_) => "fired/err_once_on_call",
+            RFault::ErrAfterBytes(_) => "fired/err_after_bytes",
+            RFault::ErrOnceAfterBytes(_) => "fired/err_once_after_bytes",
+            RFault::EofAfterBytes(_) => "fired/eof_inside_codepoint",
+            RFault::None => "fired/none",
+        },
+        1,
+    );
+    run.nontrivial(fnv_parts(&[
+        data,
+        c.t.name.as_bytes(),
+        c.e.name().as_bytes(),
+        c.ch.to_json().to_string().as_bytes(),
+        c.f.to_json().to_string().as_bytes(),
+    ]));
+    let delivered = r.stats.bytes_out;
+    let any_err = r.items.iter().any(|i| matches!(i, Canon::Err(..)));
+    for i in &r.items {
+        if let Canon::Err(k, _) = i {
+            l.see("error_kinds_after_fault", format!("{}:{k}", c.e.name()));
+        }
+    }
+    if !any_err {
+        let visible = r.fired_at.unwrap_or(delivered);
+        let pc = prefix_class(&c.doc.text, visible);
+        if pc == "prefix-is-a-complete-stream" {
+            l.add("swallowed_where_prefix_is_complete", 1);
+        }
+        let sig = if matches!(c.f, RFault::EofAfterBytes(_)) && !bom.is_empty() {
+            // behind a UTF-8 BOM the decoder transcodes lossily: the cut character becomes U+FFFD
+            "C10:reader:eof-inside-codepoint-after-bom:no-error".to_string()
+        } else if c.e == REntry::ReadIter {
+            format!(
+                "C10:reader:iter:fault-swallowed:{}:{}",
+                silent_shape(&r.items, &reference.items),
+                pending_class(&c.doc.text, visible, true)
+            )
+        } else {
+            format!("C10:reader:{}:fault-swallowed:{}:{pc}{bom}", c.e.name(), c.f.label())
+        };
+        run.violation(
+            &sig,
+            c.json(),
+            format!(
+                "{}: the reader reported the fault (bytes delivered before it: {delivered}, read calls: {}) but the result has no Err: {} | fault-free: {}",
+                c.e.name(),
+                r.stats.calls,
+                show_items(&r.items),
+                show_items(&reference.items)
+            ),
+        );
+        return;
+    }
+    l.add("fault_reported_as_err", 1);
+    if r.items.len() >= max_items {
+        run.inconclusive("iterator produced more than 4x the fault-free number of items after a fault (cut off by the harness)");
+        return;
+    }
+    if c.e == REntry::ReadIter {
+        // Ok items: equal to the fault-free item of the same index, from a fully delivered document
+        let first_err = r.items.iter().position(|i| matches!(i, Canon::Err(..))).unwrap_or(r.items.len());
+        for (i, it) in r.items.iter().enumerate() {
+            let Canon::Ok(v) = it else { continue };
+            if !sticky && i > first_err {
+                run.count("unspecified/items-after-a-transient-read-error", 1);
+                continue;
+            }
+            l.add("iter_ok_items_checked", 1);
+            match reference.items.get(i) {
+                Some(Canon::Ok(w)) if w == v => {}
+                other => {
+                    let after = r.items[..i].iter().any(|x| matches!(x, Canon::Err(k, _) if k == "IOError"));
+                    run.violation(
+                        &format!(
+                            "C10:reader:iter:ok-item-built-from-truncated-input:{}{bom}",
+                            if after { "after-io-error-item" } else { "no-earlier-io-error-item" }
+                        ),
+                        c.json(),
+                        format!(
+                            "item {i}: Ok({v}) | fault-free item: {other:?} | delivered {delivered} bytes | all items: {}",
+                            show_items(&r.items)
+                        ),
+                    );
+                    return;
+                }
+            }
+            if sticky
+                && let Some(ends) = &c.doc.ends
+                && ends.len() == reference.items.len()
+                && let Some(e) = ends.get(i)
+            {
+                l.add("iter_ok_items_position_checked", 1);
+                if *e > delivered {
+                    run.violation(
+                        &format!("C10:reader:iter:ok-item-from-document-not-fully-delivered{bom}"),
+                        c.json(),
+                        format!("item {i} = Ok({v}) but its document ends at byte {e} and only {delivered} bytes were delivered"),
+                    );
+                    return;
+                }
+            }
+        }
+    }
+}
+
+/// Sweep every fault position of one document.
+fn sweep_doc(run: &Run, l: &mut Local, doc: &Doc, t: &Target, chunkings: &[Chunking], transient_step: usize, positions: Option<&[usize]>) {
+    let data = doc.text.as_bytes();
+    let n = data.len();
+    // evidence: how many cut positions leave a prefix that is itself a complete stream
+    if positions.is_none() {
+        let mut complete = 0u64;
+        for k in 0..n {
+            if doc.text.is_char_boundary(k) && k > 0 && prefix_class(&doc.text, k) == "prefix-is-a-complete-stream" {
+                complete += 1;
+            }
+        }
+        l.add("fault_positions_whose_prefix_is_a_complete_stream", complete);
+        l.add("fault_positions_total_bytes", n as u64 + 1);
+    }
+    let inside: Vec<usize> = (1..n).filter(|k| data[*k] & 0xC0 == 0x80).collect();
+    for ch in chunkings {
+        for e in ALL_RENTRIES {
+            run.eval();
+            let reference = match run_reader(t, e, data, base_opts(None), ch, &RFault::None, 10_000) {
+                Ok(r) => r,
+                Err(p) => {
+                    let c = FaultCase { doc, t, e, ch, f: RFault::None };
+                    let sig = if p.contains(RUNAWAY_MSG) {
+                        "C10:reader:never-returns:fault-free".to_string()
+                    } else {
+                        format!("C10:panic:{}", panic_site(&p))
+                    };
+                    run.violation(&sig, c.json(), p);
+                    continue;
+                }
+            };
+            if reference.stats.fault_fired {
+                run.inconclusive("harness: fault-free run reports a fired fault");
+                continue;
+            }
+            let mut faults: Vec<RFault> = Vec::new();
+            match positions {
+                None => {
+                    for k in 0..=n {
+                        faults.push(RFault::ErrAfterBytes(k));
+                        if k % transient_step == 0 {
+                            faults.push(RFault::ErrOnceAfterBytes(k));
+                        }
+                    }
+                    for k in 0..reference.stats.calls {
+                        faults.push(RFault::ErrOnCall(k));
+                        if k % transient_step == 0 {
+                            faults.push(RFault::ErrOnceOnCall(k));
+                        }
+                    }
+                    for k in &inside {
+                        faults.push(RFault::EofAfterBytes(*k));
+                    }
+                }
+                Some(ps) => {
+                    for &k in ps {
+                        let k = k.min(n);
+                        faults.push(RFault::ErrAfterBytes(k));
+                        faults.push(RFault::ErrOnceAfterBytes(k));
+                        if data.get(k).is_some_and(|b| b & 0xC0 == 0x80) {
+                            faults.push(RFault::EofAfterBytes(k));
+                        }
+                    }
+                    let calls = reference.stats.calls;
+                    for j in 0..ps.len().min(calls) {
+                        let k = (ps[j] * 7919) % calls.max(1);
+                        faults.push(RFault::ErrOnCall(k));
+                        faults.push(RFault::ErrOnceOnCall(k));
+                    }
+                }
+            }
+            for f in faults {
+                let c = FaultCase { doc, t, e, ch, f };
+                check_fault_case(run, l, &c, &reference);
+            }
+        }
+    }
+}
+
+// ------------------------------------------------------------------ cap
+
+struct CapCase<'a> {
+    kind: &'a str,
+    len: usize,
+    cap: usize,
+    e: REntry,
+    ch: &'a Chunking,
+    t: &'a Target,
+}
+
+impl CapCase<'_> {
+    fn json(&self) -> Value {
+        json!({"section": "cap-large", "doc_kind": self.kind, "doc_len_at_least": self.len, "cap": self.cap,
+               "target": self.t.name, "entry": self.e.name(), "chunking": self.ch.to_json()})
+    }
+}
+
+fn check_cap_large(run: &Run, l: &mut Local, c: &CapCase, text: &str, nocap: &RRun) {
+    run.eval();
+    let data = text.as_bytes();
+    let r = match run_reader(c.t, c.e, data, base_opts(Some(Some(c.cap))), c.ch, &RFault::None, 1_000_000) {
+        Ok(r) => r,
+        Err(p) => {
+            run.violation(&format!("C10:panic:{}", panic_site(&p)), c.json(), p);
+            return;
+        }
+    };
+    let pulled = r.stats.bytes_out;
+    run.max("cap_max_bytes_pulled_beyond_cap", pulled.saturating_sub(c.cap) as u64);
+    l.add("cap_large_cases", 1);
+    l.see("cap_values", c.cap.to_string());
+    run.nontrivial(fnv_parts(&[b"cap", c.kind.as_bytes(), &c.cap.to_le_bytes(), c.e.name().as_bytes(), c.ch.to_json().to_string().as_bytes()]));
+    if pulled > c.cap + ALLOWANCE {
+        run.violation(
+            &format!("C10:cap:pulled-more-than-cap-plus-allowance:{}", c.e.name()),
+            c.json(),
+            format!("cap {} bytes, input {} bytes, bytes pulled from the reader: {pulled} (> cap + {ALLOWANCE})", c.cap, data.len()),
+        );
+    }
+    let any_err = r.items.iter().any(|i| matches!(i, Canon::Err(..)));
+    if !any_err {
+        let sig = if c.e == REntry::ReadIter {
+            format!("C10:cap:iter:exceeded-but-no-error:{}:{}", silent_shape(&r.items, &nocap.items), pending_class(text, c.cap, false))
+        } else {
+            format!("C10:cap:exceeded-but-no-error:{}", c.e.name())
+        };
+        run.violation(
+            &sig,
+            c.json(),
+            format!("cap {} bytes, input {} bytes (read to the end when uncapped), result: {}", c.cap, data.len(), show_items(&r.items)),
+        );
+        return;
+    }
+    for i in &r.items {
+        if let Canon::Err(k, _) = i {
+            l.see("error_kinds_on_cap", format!("{}:{k}", c.e.name()));
+        }
+    }
+    if c.e == REntry::ReadIter {
+        for (i, it) in r.items.iter().enumerate() {
+            if let Canon::Ok(v) = it {
+                l.add("cap_iter_ok_items_checked", 1);
+                if nocap.items.get(i) != Some(&Canon::Ok(v.clone())) {
+                    run.violation(
+                        "C10:cap:iter-ok-item-differs-from-uncapped",
+                        c.json(),
+                        format!("item {i}: Ok({}) | uncapped: {:?}", v.chars().take(100).collect::<String>(), nocap.items.get(i)),
+                    );
+                    return;
+                }
+            }
+        }
+    }
+}
+
+/// `len <= c` ⇒ identical to no cap; `len > c` ⇒ Err (when the uncapped run consumes the whole input).
+fn check_cap_small(run: &Run, l: &mut Local, doc: &Doc, t: &Target) {
+    if doc.text.starts_with('\u{FEFF}') {
+        // the cap counts decoded bytes; with a BOM "length" is ambiguous by 3 bytes
+        run.count("unspecified/cap-on-bom-prefixed-input", 1);
+        return;
+    }
+    let data = doc.text.as_bytes();
+    let n = data.len();
+    let ch = Chunking::Every(1);
+    for e in ALL_RENTRIES {
+        run.eval();
+        let Ok(nocap) = run_reader(t, e, data, base_opts(Some(None)), &ch, &RFault::None, 10_000) else {
+            continue; // reported by the fault sweep
+        };
+        // with 1-byte reads the 8 KiB BufReader cannot run ahead: eof_seen <=> the parser asked beyond the last byte
+        let consumed_all = nocap.stats.eof_seen && nocap.stats.bytes_out == n;
+        let mut caps = vec![n, n + 1, n + 4096];
+        if n > 0 {
+            caps.extend([n - 1, 1.min(n - 1), 0]);
+        }
+        caps.dedup();
+        for c in caps {
+            run.eval();
+            let case = || json!({"section": "cap-small", "text": doc.text, "cap": c, "target": t.name, "entry": e.name(), "chunking": ch.to_json()});
+            let r = match run_reader(t, e, data, base_opts(Some(Some(c))), &ch, &RFault::None, 10_000) {
+                Ok(r) => r,
+                Err(p) if p.contains(RUNAWAY_MSG) => {
+                    run.violation(&format!("C10:cap:never-returns-after-cap:{}", runaway_class(&doc.text[..c.min(n)], &p)), case(), p);
+                    continue;
+                }
+                Err(p) => {
+                    run.violation(&format!("C10:panic:{}", panic_site(&p)), case(), p);
+                    continue;
+                }
+            };
+            if n <= c {
+                l.add("cap_small_within_cap_cases", 1);
+                if r.items != nocap.items {
+                    run.violation(
+                        &format!("C10:cap:input-within-cap-differs-from-uncapped:cap-minus-len={}", c - n),
+                        case(),
+                        format!("len {n} <= cap {c}: uncapped {} | capped {}", show_items(&nocap.items), show_items(&r.items)),
+                    );
+                } else if n >= 2 {
+                    run.nontrivial(fnv_parts(&[b"cap-small", data, &c.to_le_bytes(), e.name().as_bytes()]));
+                }
+            } else if consumed_all {
+                l.add("cap_small_over_cap_cases", 1);
+                if !r.items.iter().any(|i| matches!(i, Canon::Err(..))) {
+                    let sig = if e == REntry::ReadIter {
+                        format!("C10:cap:iter:exceeded-but-no-error:{}:{}", silent_shape(&r.items, &nocap.items), pending_class(&doc.text, c, false))
+                    } else {
+                        format!("C10:cap:exceeded-but-no-error:{}:small-input", e.name())
+                    };
+                    run.violation(
+                        &sig,
+                        case(),
+                        format!("len {n} > cap {c} and the uncapped run consumes the whole input, result: {}", show_items(&r.items)),
+                    );
+                } else {
+                    run.nontrivial(fnv_parts(&[b"cap-small", data, &c.to_le_bytes(), e.name().as_bytes()]));
+                }
+            } else {
+                run.count("unspecified/cap-below-length-but-input-not-read-to-its-end", 1);
+            }
+        }
+    }
+}
+
+// ------------------------------------------------------------------ writer
+
+/// Writer that fails exactly once (the k-th call / the first call once n bytes were accepted) and
+/// accepts everything afterwards: a serializer that loses the error would go on writing.
+struct OnceWriter {
+    on_call: Option<usize>,
+    after_bytes: Option<usize>,
+    short: usize,
+    calls: usize,
+    done: bool,
+    accepted: Vec<u8>,
+    accepted_after_fault: usize,
+}
+
+impl Write for OnceWriter {
+    fn write(&mut self, buf: &[u8]) -> std::io::Result<usize> {
+        let call = self.calls;
+        self.calls += 1;
+        if buf.is_empty() {
+            return Ok(0);
+        }
+        if !self.done {
+            let hit = self.on_call == Some(call) || self.after_bytes.is_some_and(|n| self.accepted.len() >= n);
+            if hit {
+                self.done = true;
+                return Err(std::io::Error::other(WFAULT_MSG));
+            }
+        }
+        let mut n = buf.len();
+        if self.short > 0 {
+            n = n.min(self.short);
+        }
+        if !self.done
+            && let Some(k) = self.after_bytes
+        {
+            n = n.min(k - self.accepted.len()).max(1);
+        }
+        self.accepted.extend_from_slice(&buf[..n]);
+        if self.done {
+            self.accepted_after_fault += n;
+        }
+        Ok(n)
+    }
+    fn flush(&mut self) -> std::io::Result<()> {
+        Ok(())
+    }
+}
+
+#[derive(Clone, Debug)]
+enum WPlan {
+    StickyCall(usize),
+    StickyBytes(usize),
+    OnceCall(usize),
+    OnceBytes(usize),
+}
+
+impl WPlan {
+    fn label(&self) -> &'static str {
+        match self {
+            WPlan::StickyCall(_) => "err_on_call",
+            WPlan::StickyBytes(_) => "err_after_bytes",
+            WPlan::OnceCall(_) => "err_once_on_call",
+            WPlan::OnceBytes(_) => "err_once_after_bytes",
+        }
+    }
+    fn to_json(&self) -> Value {
+        match self {
+            WPlan::StickyCall(k) => json!({"err_on_call": k}),
+            WPlan::StickyBytes(k) => json!({"err_after_bytes": k}),
+            WPlan::OnceCall(k) => json!({"err_once_on_call": k}),
+            WPlan::OnceBytes(k) => json!({"err_once_after_bytes": k}),
+        }
+    }
+    fn from_json(v: &Value) -> WPlan {
+        let g = |n: &str| v.get(n).and_then(|k| k.as_u64()).map(|k| k as usize);
+        if let Some(k) = g("err_on_call") {
+            WPlan::StickyCall(k)
+        } else if let Some(k) = g("err_after_bytes") {
+            WPlan::StickyBytes(k)
+        } else if let Some(k) = g("err_once_on_call") {
+            WPlan::OnceCall(k)
+        } else {
+            WPlan::OnceBytes(g("err_once_after_bytes").unwrap_or(0))
+        }
+    }
+}
+
+fn ser_opts(v: usize) -> serde_saphyr::SerializerOptions {
+    let mut o = serde_saphyr::SerializerOptions::default();
+    #[allow(deprecated)]
+    match v {
+        1 => {
+            o.indent_step = 4;
+            o.quote_all = true;
+            o.compact_list_indent = true;
+        }
+        2 => {
+            o.prefer_block_scalars = false;
+            o.empty_as_braces = false;
+            o.tagged_enums = true;
+            o.folded_wrap_chars = 20;
+            o.min_fold_chars = 10;
+        }
+        _ => {}
+    }
+    o
+}
+
+struct WOut {
+    result: Result<(), serde_saphyr::ser::Error>,
+    accepted: Vec<u8>,
+    calls: usize,
+    fired: bool,
+    accepted_after_fault: usize,
+}
+
+fn run_writer<T: serde::Serialize>(value: &T, optv: usize, plan: Option<&WPlan>, short: usize, default_entry: bool) -> Result<WOut, String> {
+    catch(|| match plan {
+        None | Some(WPlan::StickyCall(_)) | Some(WPlan::StickyBytes(_)) => {
+            let fault = match plan {
+                Some(WPlan::StickyCall(k)) => WFault::ErrOnCall(*k),
+                Some(WPlan::StickyBytes(k)) => WFault::ErrAfterBytes(*k),
+                _ => WFault::None,
+            };
+            let mut w = FaultWriter::new(fault, short);
+            let st = w.stats_handle();
+            let result = if default_entry {
+                serde_saphyr::to_io_writer(&mut w, value)
+            } else {
+                serde_saphyr::to_io_writer_with_options(&mut w, value, ser_opts(optv))
+            };
+            let s = st.borrow();
+            WOut { result, accepted: s.accepted.clone(), calls: s.calls, fired: s.fault_fired, accepted_after_fault: 0 }
+        }
+        Some(p) => {
+            let mut w = OnceWriter {
+                on_call: if let WPlan::OnceCall(k) = p { Some(*k) } else { None },
+                after_bytes: if let WPlan::OnceBytes(k) = p { Some(*k) } else { None },
+                short,
+                calls: 0,
+                done: false,
+                accepted: Vec::new(),
+                accepted_after_fault: 0,
+            };
+            let result = if default_entry {
+                serde_saphyr::to_io_writer(&mut w, value)
+            } else {
+                serde_saphyr::to_io_writer_with_options(&mut w, value, ser_opts(optv))
+            };
+            WOut { result, accepted: w.accepted, calls: w.calls, fired: w.done, accepted_after_fault: w.accepted_after_fault }
+        }
+    })
+}
+
+/// Sweep every write-fault position for one value.
+fn sweep_value<T: serde::Serialize>(run: &Run, l: &mut Local, value: &T, ident: &Value, optv: usize, shorts: &[usize], plan_filter: Option<(&WPlan, usize)>) {
+    let default_entry = optv == 0;
+    for &short in shorts {
+        if let Some((_, s)) = plan_filter
+            && s != short
+        {
+            continue;
+        }
+        run.eval();
+        let free = match run_writer(value, optv, None, short, default_entry) {
+            Ok(f) => f,
+            Err(p) => {
+                run.violation(&format!("C10:panic:{}", panic_site(&p)), json!({"section": "writer", "value": ident, "opts": optv, "short": short, "plan": "none"}), p);
+                return;
+            }
+        };
+        if let Err(e) = &free.result {
+            l.add("writer_values_not_serializable_fault_free", 1);
+            l.see("fault_free_serializer_errors", format!("{e:?}").chars().take(40).collect());
+            return;
+        }
+        let f_out = free.accepted;
+        let f_text = String::from_utf8_lossy(&f_out).into_owned();
+        let mut plans: Vec<WPlan> = Vec::new();
+        match plan_filter {
+            Some((p, _)) => plans.push(p.clone()),
+            None => {
+                for k in 0..=free.calls {
+                    plans.push(WPlan::StickyCall(k));
+                    plans.push(WPlan::OnceCall(k));
+                }
+                for n in 0..=f_out.len() {
+                    plans.push(WPlan::StickyBytes(n));
+                    if n % 2 == 0 {
+                        plans.push(WPlan::OnceBytes(n));
+                    }
+                }
+            }
+        }
+        l.add("writer_fault_free_write_calls", free.calls as u64);
+        for plan in plans {
+            run.eval();
+            let case = || json!({"section": "writer", "value": ident, "opts": optv, "short": short, "plan": plan.to_json(), "fault_free_output": f_text});
+            let w = match run_writer(value, optv, Some(&plan), short, default_entry) {
+                Ok(w) => w,
+                Err(p) => {
+                    run.violation(&format!("C10:panic:{}", panic_site(&p)), case(), p);
+                    continue;
+                }
+            };
+            if !w.fired {
+                l.add("writer_fault_not_reached", 1);
+                if w.result.is_err() || w.accepted != f_out {
+                    run.violation(
+                        "C10:writer:unfired-fault-changed-output",
+                        case(),
+                        format!("result {:?}, {} bytes accepted vs {} fault-free", w.result.as_ref().err().map(|e| e.to_string()), w.accepted.len(), f_out.len()),
+                    );
+                }
+                continue;
+            }
+            l.add("writer_fault_fired", 1);
+            let calls_before = match plan {
+                WPlan::StickyCall(k) | WPlan::OnceCall(k) => k,
+                _ => w.calls.saturating_sub(1),
+            };
+            if calls_before >= 2 {
+                run.nontrivial(fnv_parts(&[b"writer", &f_out, &[optv as u8, short as u8], plan.to_json().to_string().as_bytes()]));
+            }
+            match &w.result {
+                Ok(()) => {
+                    run.violation(
+                        &format!("C10:writer:fault-swallowed:{}", plan.label()),
+                        case(),
+                        format!("the writer failed (call {} of the run) but serialization returned Ok; {} bytes accepted, {} of them after the failure", w.calls, w.accepted.len(), w.accepted_after_fault),
+                    );
+                    continue;
+                }
+                Err(serde_saphyr::ser::Error::IO { error }) if error.to_string().contains(WFAULT_MSG) => {
+                    l.add("writer_error_is_the_injected_io_error", 1);
+                }
+                Err(other) => {
+                    let variant: String = format!("{other:?}").chars().take_while(|c| c.is_ascii_alphanumeric()).collect();
+                    run.violation(
+                        &format!("C10:writer:error-is-not-the-io-error:{variant}:{}", plan.label()),
+                        case(),
+                        format!("expected ser::Error::IO carrying \"{WFAULT_MSG}\", got {other:?}"),
+                    );
+                    continue;
+                }
+            }
+            if !f_out.starts_with(&w.accepted) {
+                run.violation(
+                    &format!("C10:writer:accepted-bytes-not-a-prefix:{}", plan.label()),
+                    case(),
+                    format!(
+                        "accepted {:?} is not a prefix of the fault-free output ({} bytes accepted after the failed write)",
+                        String::from_utf8_lossy(&w.accepted).chars().take(200).collect::<String>(),
+                        w.accepted_after_fault
+                    ),
+                );
+            } else {
+                l.add("writer_accepted_is_prefix", 1);
+            }
+        }
+    }
+}
+
+fn writer_vals(seed: u64, tier: Tier) -> Vec<Val> {
+    let mut out = Vec::new();
+    // every small document shape (the C13 quick set: all base trees with <= 4 nodes), as values
+    for n in 1..=tier.pick(3, 4) {
+        for t in treegen::base_trees(n, LEAVES_BASIC) {
+            let text = ydoc::render_text(&t);
+            if let Ok(v) = serde_saphyr::from_str::<Val>(&text) {
+                out.push(v);
+            }
+        }
+    }
+    let n_random = tier.pick(150, 2500);
+    for i in 0..n_random {
+        let mut rng = Rng::stream(seed, i as u64 ^ 0x77a1);
+        out.push(docs::random_val(&mut rng, 3));
+    }
+    out
+}
+
+// ------------------------------------------------------------------ replay
+
+fn replay(run: &Run, case: &Value) {
+    let mut l = Local::default();
+    let t = targets::by_name(case["target"].as_str().unwrap_or("Val")).unwrap_or(targets::by_name("Val").unwrap());
+    match case["section"].as_str().unwrap_or("") {
+        "reader-fault" => {
+            let doc = Doc {
+                text: case["text"].as_str().unwrap_or("").to_string(),
+                ends: case["ends"].as_array().map(|a| a.iter().filter_map(|x| x.as_u64()).map(|x| x as usize).collect()),
+                class: "replay",
+            };
+            let e = REntry::from_name(case["entry"].as_str().unwrap_or(""));
+            let ch = Chunking::from_json(&case["chunking"]);
+            let f = RFault::from_json(&case["fault"]);
+            match run_reader(t, e, doc.text.as_bytes(), base_opts(None), &ch, &RFault::None, 10_000) {
+                Ok(reference) => check_fault_case(run, &mut l, &FaultCase { doc: &doc, t, e, ch: &ch, f }, &reference),
+                Err(p) => run.violation("C10:reader:never-returns:fault-free", case.clone(), p),
+            }
+        }
+        "cap-large" => {
+            let kind = case["doc_kind"].as_str().unwrap_or("seq").to_string();
+            let len = case["doc_len_at_least"].as_u64().unwrap_or(0) as usize;
+            let cap = case["cap"].as_u64().unwrap_or(0) as usize;
+            let e = REntry::from_name(case["entry"].as_str().unwrap_or(""));
+            let ch = Chunking::from_json(&case["chunking"]);
+            let text = docs::cap_doc(&kind, len);
+            if let Ok(nocap) = run_reader(t, e, text.as_bytes(), base_opts(Some(None)), &ch, &RFault::None, 1_000_000) {
+                check_cap_large(run, &mut l, &CapCase { kind: &kind, len, cap, e, ch: &ch, t }, &text, &nocap);
+            }
+        }
+        "cap-small" => {
+            let doc = Doc { text: case["text"].as_str().unwrap_or("").to_string(), ends: None, class: "replay" };
+            check_cap_small(run, &mut l, &doc, t);
+        }
+        "writer" => {
+            let ident = &case["value"];
+            let optv = case["opts"].as_u64().unwrap_or(0) as usize;
+            let short = case["short"].as_u64().unwrap_or(0) as usize;
+            let plan = WPlan::from_json(&case["plan"]);
+            let idx = ident["index"].as_u64().unwrap_or(0) as usize;
+            match ident["kind"].as_str() {
+                Some("record") => {
+                    if let Some(r) = docs::records().get(idx) {
+                        sweep_value(run, &mut l, r, ident, optv, &[short], Some((&plan, short)));
+                    }
+                }
+                _ => {
+                    let seed = ident["seed"].as_i64().unwrap_or(1) as u64;
+                    let tier = if ident["tier"].as_str() == Some("thorough") { Tier::Thorough } else { Tier::Quick };
+                    if let Some(v) = writer_vals(seed, tier).get(idx) {
+                        sweep_value(run, &mut l, v, ident, optv, &[short], Some((&plan, short)));
+                    }
+                }
+            }
+        }
+        _ => {}
+    }
+}
+
+// ------------------------------------------------------------------ main
+
+fn main() {
+    let run = Run::from_args("C10");
+    if let Some(rep) = run.is_replay() {
+        replay(&run, &rep["case"]);
+        run.finish(Finish::new("replay").level("fault_enumeration"));
+    }
+    let tier = run.tier;
+    let thorough = tier == Tier::Thorough;
+    let only: Option<Vec<usize>> =
+        std::env::var("C10_SECTIONS").ok().map(|s| s.split(',').filter_map(|x| x.trim().parse().ok()).collect());
+    let on = |k: usize| only.as_ref().is_none_or(|v| v.contains(&k));
+    let val_t = targets::by_name("Val").unwrap();
+    let typed: Vec<&'static Target> = ["Val", "MapStrVal", "VecString", "json", "Ignored"].iter().filter_map(|n| targets::by_name(n)).collect();
+
+    // ================= 1. every fault position of every document <= 2 KiB
+    let n_docs = tier.pick(300usize, 5000usize);
+    par_range(if on(1) { n_docs } else { 0 }, |i| {
+        let mut l = Local::default();
+        let doc = docs::sweep_doc(run.seed, i);
+        if doc.text.len() > 2048 {
+            run.inconclusive("generator produced a sweep document above 2 KiB (skipped)");
+            return;
+        }
+        l.add(
+            match doc.class {
+                "dangerous-single" => "docs/dangerous-single",
+                "dangerous-stream" => "docs/dangerous-stream",
+                "generated-tree" => "docs/generated-tree",
+                "flow" => "docs/flow",
+                _ => "docs/special",
+            },
+            1,
+        );
+        // Val always; a typed target on every other document
+        let chunkings: Vec<Chunking> = match i % 3 {
+            0 => vec![Chunking::Whole, Chunking::Every(1)],
+            1 => vec![Chunking::Whole, Chunking::Every(3)],
+            _ => vec![Chunking::Every(1), Chunking::Every(7)],
+        };
+        let step = if thorough { 1 } else { 3 };
+        sweep_doc(&run, &mut l, &doc, val_t, &chunkings, step, None);
+        if i % 2 == 0 {
+            let t = typed[1 + (i / 2) % (typed.len() - 1)];
+            sweep_doc(&run, &mut l, &doc, t, &chunkings[..1], step, None);
+        }
+        check_cap_small(&run, &mut l, &doc, val_t);
+        if i % 37 == 0 {
+            run.sample(|| json!({"section": "reader-fault", "class": doc.class, "text": doc.text, "ends": doc.ends}));
+        }
+        l.flush(&run);
+    });
+
+    // ================= 2. larger documents, sampled positions (buffer boundaries included)
+    let n_large = tier.pick(12usize, 60usize);
+    par_range(if on(2) { n_large } else { 0 }, |i| {
+        let mut l = Local::default();
+        let mut rng = Rng::stream(run.seed, i as u64 ^ 0x5a3);
+        let doc = docs::large_doc(run.seed, i);
+        let n = doc.text.len();
+        let mut ps: Vec<usize> = vec![0, 1, 2, 3, n.saturating_sub(1), n, 1023, 1024, 1025, 3071, 3072, 3073, 4095, 4096, 4097];
+        let mut b = 8192;
+        while b < n + 8192 {
+            ps.extend([b - 1, b, b + 1]);
+            b += 8192;
+        }
+        for _ in 0..tier.pick(60, 200) {
+            ps.push(rng.below(n + 1));
+        }
+        // line boundaries: prefix is a complete stream
+        let lb: Vec<usize> = doc.text.match_indices('\n').map(|(p, _)| p + 1).collect();
+        for _ in 0..tier.pick(40, 150) {
+            ps.push(*rng.pick(&lb));
+        }
+        ps.retain(|p| *p <= n);
+        ps.sort_unstable();
+        ps.dedup();
+        l.add("docs/large", 1);
+        l.add("large_doc_sampled_positions", ps.len() as u64);
+        let chunkings = [Chunking::Whole, Chunking::Every(4096), Chunking::Every(1000)];
+        sweep_doc(&run, &mut l, &doc, val_t, &chunkings[i % 3..i % 3 + 1], 1, Some(&ps));
+        l.flush(&run);
+    });
+
+    // ================= 3. cap far below the input size
+    let caps: Vec<usize> = if thorough {
+        vec![0, 1, 10, 100, 1000, 4095, 8191, 8192, 8193, 10_000, 16_384, 65_536, 100_000, 300_000]
+    } else {
+        vec![0, 1, 100, 8192, 10_000, 100_000]
+    };
+    let kinds = ["seq", "multibyte-seq", "scalar", "map", "stream"];
+    let mut cap_items: Vec<(usize, usize)> = Vec::new();
+    for (ki, _) in kinds.iter().enumerate() {
+        for (ci, _) in caps.iter().enumerate() {
+            cap_items.push((ki, ci));
+        }
+    }
+    par_range(if on(3) { cap_items.len() } else { 0 }, |ix| {
+        let (ki, ci) = cap_items[ix];
+        let mut l = Local::default();
+        let kind = kinds[ki];
+        let cap = caps[ci];
+        let len = cap + CAP_MARGIN + 1024;
+        let text = docs::cap_doc(kind, len);
+        let chunkings = [Chunking::Whole, Chunking::Every(4096), Chunking::Every(1), Chunking::Every(100_000)];
+        for e in ALL_RENTRIES {
+            if kind == "stream" && e != REntry::ReadIter {
+                continue; // single-document entry points stop at the second document
+            }
+            for (j, ch) in chunkings.iter().enumerate() {
+                if !thorough && j >= 2 && (ci + ki) % 2 == 0 {
+                    continue;
+                }
+                run.eval();
+                let nocap = match run_reader(val_t, e, text.as_bytes(), base_opts(Some(None)), ch, &RFault::None, 1_000_000) {
+                    Ok(r) => r,
+                    Err(p) => {
+                        run.violation(&format!("C10:panic:{}", panic_site(&p)), json!({"section": "cap-large", "doc_kind": kind, "doc_len_at_least": len, "cap": "none", "entry": e.name()}), p);
+                        continue;
+                    }
+                };
+                // premise of the "absent cap is visible" argument: uncapped, the whole input is pulled and accepted
+                if nocap.items.iter().any(|i| matches!(i, Canon::Err(..))) || nocap.stats.bytes_out != text.len() {
+                    run.inconclusive("cap: uncapped run of the large document did not succeed / did not read everything");
+                    continue;
+                }
+                check_cap_large(&run, &mut l, &CapCase { kind, len, cap, e, ch, t: val_t }, &text, &nocap);
+            }
+        }
+        l.flush(&run);
+    });
+
+    // ================= 4. writer faults
+    let vals = writer_vals(run.seed, tier);
+    let recs = docs::records();
+    run.count("writer_values", (vals.len() + recs.len()) as u64);
+    let n_w = if on(4) { vals.len() + recs.len() } else { 0 };
+    par_range(n_w, |i| {
+        let mut l = Local::default();
+        let shorts: &[usize] = if i % 4 == 0 { &[0, 1, 3] } else { &[0] };
+        if i < vals.len() {
+            let ident = json!({"kind": "val", "index": i, "seed": run.seed as i64, "tier": tier.name(), "value": vals[i].to_json()});
+            let optv = i % 3;
+            sweep_value(&run, &mut l, &vals[i], &ident, optv, shorts, None);
+            if i % 211 == 0 {
+                run.sample(|| json!({"section": "writer", "value": vals[i].to_json(), "opts": optv}));
+            }
+        } else {
+            let j = i - vals.len();
+            let ident = json!({"kind": "record", "index": j});
+            for optv in 0..3 {
+                sweep_value(&run, &mut l, &recs[j], &ident, optv, &[0, 1, 7], None);
+            }
+        }
+        l.flush(&run);
+    });
+
+    let scope = format!(
+        "reader: for each of the {n_docs} generated documents (<= 2 KiB; families: block documents and streams whose truncated prefixes are complete documents, generated trees, flow, special shapes) x chunkings x {{from_reader, with_deserializer_from_reader, read iterator}}: hard error after byte k for EVERY k in 0..=len, hard error on read call k for EVERY k below the fault-free call count, EOF at EVERY byte offset inside a multi-byte character{}; writer: for every value of the set ({} values: all base trees with <= {} nodes as Val, seeded random Val trees, 3 derived records) x option vectors: failing write call k for EVERY k in 0..=fault-free call count and failure after n accepted bytes for EVERY n in 0..=len (sticky and fail-once; short writes 0/1/3/7)",
+        if thorough { ", and the fail-once variants at every k" } else { " (fail-once variants at every 3rd k)" },
+        vals.len() + recs.len(),
+        tier.pick(3, 4)
+    );
+    let fin = Finish::new(
+        "reader: a case is non-trivial when the instrumented reader reports that the fault fired, distinct by hash(document, target, entry point, chunking, fault); writer: the writer was called >= 2 times before failing, distinct by hash(fault-free output, options, short-write size, fault); cap: every case (the cap is below the input length or exactly around it)",
+    )
+    .level("fault_enumeration")
+    .exhaustive(scope)
+    .assume("buffering allowance for the cap fixed in DESIGN.md before measuring: 64 KiB; cap inputs are >= cap + 256 KiB")
+    .assume("instrumented readers never return Ok(0) before the end of data and never ErrorKind::Interrupted; sticky faults keep failing, fail-once faults lose no data")
+    .assume("which Err is returned after a fault is not constrained (the statement says 'an error'); kinds are recorded in the evidence")
+    .assume("cap on BOM-prefixed inputs within 3 bytes of the cap, and items the iterator yields after a fail-once read error, are unspecified")
+    .min_nontrivial(tier.pick(100_000, 1_000_000));
+    run.finish(fin);
+}
